@@ -26,8 +26,15 @@ impl HCVScore {
         let contingency = contingency_matrix(&labels_true, &labels_pred);
         let mi: T = mutual_info_score(&contingency);
 
-        let homogeneity = entropy_c.map(|e| mi / e).unwrap_or_else(T::one);
-        let completeness = entropy_k.map(|e| mi / e).unwrap_or_else(T::one);
+        // a labelling with a single class has zero entropy: the score is 1 by definition (not 0/0)
+        let homogeneity = match entropy_c {
+            Some(e) if e != T::zero() => mi / e,
+            _ => T::one(),
+        };
+        let completeness = match entropy_k {
+            Some(e) if e != T::zero() => mi / e,
+            _ => T::one(),
+        };
 
         let v_measure_score = if homogeneity + completeness == T::zero() {
             T::zero()
